@@ -50,6 +50,7 @@ class Requester:
         self.script: List[Any] = []
         self.default = ("resp", 500, None, None)
         self.park: Optional[Any] = None  # callable(method, url, headers) -> Future | None (C11)
+        self.probe: Optional[Any] = None   # callable(sid) -> index of the service routed for sid right now | None
         self.suspend = False             # answer after one trip round the event loop (the reaction is bound at request time)
         self.n = 0
 
@@ -63,7 +64,14 @@ class Requester:
                 return 200, {}, _DEV % "".join(_SVC.format(i=i) for i in range(len(self.svc_vars)))
             i = int(url.rsplit("/s", 1)[1].split(".")[0])
             return 200, {}, _SCPD % "".join(var_xml(d) for d in self.svc_vars[i])
-        entry = [method, url, dict(headers or {}), None]
+        entry = [method, url, dict(headers or {}), None, None]
+        if self.probe is not None:
+            hs = {k.upper(): v for k, v in (headers or {}).items()}
+            if "SID" in hs:
+                try:
+                    entry[4] = self.probe(hs["SID"])   # what the handler routes for this SID while the request is in flight
+                except Exception:  # noqa: BLE001
+                    entry[4] = 96
         self.log.append(entry)
         fut = self.park(method, url, headers) if self.park else None
         if fut is not None:
